@@ -127,8 +127,9 @@ class SLazy:
 class Opaque:
     """An object nothing is known about (result of an unmodelled call)."""
 
-    def __init__(self, origin):
+    def __init__(self, origin, typ=None):
         self.origin = origin
+        self.typ = typ
         self.uid = next(_counter)
 
     def __repr__(self):
